@@ -402,6 +402,47 @@ func (c *child) shapeEdits(tr *triple) {
 		r.Count("verify.error.shape-edit", 1)
 		r.SampleClass(tr.backend+"/shape-edit", map[string]any{"curve": c.ops.Name, "edit": e.Name, "verifier_said": verr.Error()})
 	}
+	// cross product: every list edit of the proof together with every wrong public-vector length
+	// (two inconsistencies that may cancel in a verifier's size arithmetic, e.g. k commitments
+	// fewer and k public values more)
+	n := len(tr.pub)
+	for _, e := range edits {
+		if !e.Changed {
+			continue
+		}
+		for l := 0; l <= n+3; l++ {
+			if l == n {
+				continue
+			}
+			pub := make([]*big.Int, l)
+			for i := range pub {
+				if i < n {
+					pub[i] = tr.pub[i]
+				} else {
+					pub[i] = big.NewInt(int64(i))
+				}
+			}
+			pw, err := circuits.MakeWitness(c.field, pub, nil)
+			if err != nil {
+				continue
+			}
+			name := fmt.Sprintf("%s + public-length %d (want %d)", e.Name, l, n)
+			vcore.ChildCaseStart(fmt.Sprintf("%s %s shape-edit x public-length: %s", c.ops.Name, tr.backend, name), nil)
+			r.Eval(fmt.Sprintf("%s|%s|shape-x-publen|%s|%d|%d", c.ops.Name, tr.backend, e.Name, l, n), true)
+			var verr error
+			if p, st := vcore.Catch(func() { verr = c.verifyObj(tr, e.Obj, pw) }); p != nil {
+				r.Count("verify.PANIC", 1)
+				r.Violation("verify-panic/"+tr.backend+"/shape-edit+public-length", fmt.Sprintf("Verify panicked on %s: %v", name, p),
+					map[string]any{"curve": c.ops.Name, "edit": e.Name, "public_length": l, "want": n, "stack": st})
+			} else if verr == nil {
+				r.Violation("inconsistent-structure-accepted/"+tr.backend+"/shape-edit+public-length", "Verify returned nil for "+name,
+					map[string]any{"curve": c.ops.Name, "edit": e.Name, "public_length": l, "want": n})
+			} else {
+				r.Count("verify.error", 1)
+				r.Count("verify.error.shape-edit+public-length", 1)
+			}
+		}
+	}
 }
 
 func (c *child) publicLengths(tr *triple) {
